@@ -358,9 +358,11 @@ theorem keypairStep_total (table : List (Nat × List Nat)) (n : Nat)
   | some metadata =>
     obtain ⟨seed, hseed⟩ := ht _ (lookup_mem hl)
     dsimp only at hseed ⊢
-    rw [hseed]
-    dsimp only
-    split <;> exact ⟨_, rfl⟩
+    split
+    · exact ⟨_, rfl⟩
+    · rw [hseed]
+      dsimp only
+      split <;> exact ⟨_, rfl⟩
 
 theorem single_total : ∀ p ∈ singleModels, ∀ (g : RsaGlobals) (o : KeyOracles) (k : RsaKey),
     KeyWF g o k → ∃ v, p.2 g o k = .ok v := by
